@@ -75,6 +75,12 @@ func (am *Machine) handleStateDkgCommitsAwaitConfirmations(o *client.Operation) 
 		return fmt.Errorf("failed to unmarshal payload: %w", err)
 	}
 
+	for _, r := range payload {
+		if r == nil {
+			return fmt.Errorf("invalid payload: empty participant entry")
+		}
+	}
+
 	pid := -1
 	for _, r := range payload {
 		pubkey := am.baseSuite.Point()
@@ -167,6 +173,9 @@ func (am *Machine) handleStateDkgDealsAwaitConfirmations(o *client.Operation) er
 	}
 
 	for _, entry := range payload {
+		if entry == nil {
+			return fmt.Errorf("invalid payload: empty participant entry")
+		}
 		var commitsBz [][]byte
 		if err = json.Unmarshal(entry.DkgCommit, &commitsBz); err != nil {
 			return fmt.Errorf("failed to unmarshal commits: %w", err)
@@ -249,6 +258,9 @@ func (am *Machine) handleStateDkgResponsesAwaitConfirmations(o *client.Operation
 	}
 
 	for _, entry := range payload {
+		if entry == nil {
+			return fmt.Errorf("invalid payload: empty participant entry")
+		}
 		//do not store deals from ourselves because of the hack above
 		if entry.ParticipantId == dkgInstance.ParticipantID {
 			continue
@@ -260,6 +272,9 @@ func (am *Machine) handleStateDkgResponsesAwaitConfirmations(o *client.Operation
 		var deal dkgPedersen.Deal
 		if err = json.Unmarshal(decryptedDealBz, &deal); err != nil {
 			return fmt.Errorf("failed to unmarshal deal")
+		}
+		if deal.Deal == nil {
+			return fmt.Errorf("invalid deal from %s: encrypted deal is missing", entry.Username)
 		}
 		dkgInstance.StoreDeal(entry.Username, &deal)
 	}
@@ -310,9 +325,17 @@ func (am *Machine) handleStateDkgMasterKeyAwaitConfirmations(o *client.Operation
 	}
 
 	for _, entry := range payload {
+		if entry == nil {
+			return fmt.Errorf("invalid payload: empty participant entry")
+		}
 		var entryResponses []*dkgPedersen.Response
 		if err = json.Unmarshal(entry.DkgResponse, &entryResponses); err != nil {
 			return fmt.Errorf("failed to unmarshal responses: %w", err)
+		}
+		for _, response := range entryResponses {
+			if response == nil || response.Response == nil {
+				return fmt.Errorf("invalid responses from %s: empty response", entry.Username)
+			}
 		}
 		dkgInstance.StoreResponses(entry.Username, entryResponses)
 	}
